@@ -17,7 +17,7 @@ CLAIMED = {
  'C07': ('function-against-spec contracts for InRange, AllInRangeValidator, WithinPercent, Equals, the equals/all_equals/matches_regex factories, '
          'RegexMatcher, with_args/__eq__ and DimensionPivot, over the full value union (None|bool|int|float|str)',
          'float is modelled as real|NaN|+-inf with IEEE facts for rounded arithmetic; re semantics trusted (pattern text and method identity are proved); '
-         'ConsistentEndDimensionPivot and __str__ are not under contract'),
+         'of ConsistentEndDimensionPivot only "false when no row passes" and "true only if some row passes" are proved (the closure clause over the slice is left undischarged by the solvers and is not claimed); __str__ is not under contract'),
  'C20': ('every _Configuration operation verified against the three-map view (declarations, loaded, flags) from an arbitrary pre-state: lookup precedence, '
          'contains/getattr/holder/_asdict agreement, loading rule with loop invariants, reset, declare, setattr, save_and_restore wrapper on normal and exceptional exits',
          'yaml parsing and file reading trusted; @threads.synchronized taken as locking only; load_flag_values loop not under contract'),
